@@ -294,4 +294,4 @@ if __name__ == '__main__':
                      'topology, names and query shape concrete per family; '
                      'inventory numbers, usage, requested amounts and '
                      'presence of every optional row symbolic'],
-        quick_budget=170, thorough_budget=1700))
+        quick_budget=420, thorough_budget=2400))
